@@ -379,6 +379,11 @@ func (e *Entry) importErrors(c *Entry) {
 	for _, ce := range c.Dir {
 		e.importErrors(ce)
 	}
+	if c.RPC != nil {
+		// The input and output of an rpc or action are not in Dir.
+		e.importErrors(c.RPC.Input)
+		e.importErrors(c.RPC.Output)
+	}
 }
 
 // checkErrors calls f on every error found in the tree e and its children.
